@@ -75,6 +75,18 @@ pub enum Op {
 }
 
 impl Op {
+    /// "^-", "^+", "^n", "^n-m" (as in a route-set member such as 10.0.0.0/8^16-24)
+    fn parse(s: &str) -> Option<Self> {
+        match s {
+            "" => Some(Self::None),
+            "-" => Some(Self::Minus),
+            "+" => Some(Self::Plus),
+            _ => match s.split_once('-') {
+                Some((n, m)) => Some(Self::Range(n.parse().ok()?, m.parse().ok()?)),
+                None => Some(Self::Len(s.parse().ok()?)),
+            },
+        }
+    }
     fn render(self) -> String {
         match self {
             Self::None => String::new(),
@@ -143,7 +155,18 @@ impl Model {
         match ex {
             Ex::AsSet(n) => Some(self.db.expand_as_set(n).unwrap_or_default().iter().flat_map(|a| self.as_elems(a)).collect()),
             Ex::AutNum(n) => Some(self.as_elems(n)),
-            Ex::RouteSet(n) => Some(self.db.expand_route_set(n).unwrap_or_default().iter().filter_map(|p| Pfx::parse(p)).map(|p| (p, p.len, p.len)).collect()),
+            // members may carry a range operator (RFC 2622 section 5.2: "128.9.0.0/16^+")
+            Ex::RouteSet(n) => Some(
+                self.db
+                    .expand_route_set(n)
+                    .unwrap_or_default()
+                    .iter()
+                    .filter_map(|m| {
+                        let (p, op) = m.split_once('^').unwrap_or((m.as_str(), ""));
+                        Op::parse(op)?.apply(Pfx::parse(p)?)
+                    })
+                    .collect(),
+            ),
             Ex::Lit(items) => Some(items.iter().filter_map(|(p, op)| op.apply(Pfx::parse(p)?)).collect()),
             _ => None,
         }
@@ -299,6 +322,8 @@ pub fn base_model(variant: usize) -> Model {
     }
     _ = m.db.route_sets.insert("RS-X".into(), v(&["198.51.100.0/25", "RS-Y", "2001:db8:f00::/49"]));
     _ = m.db.route_sets.insert("RS-Y".into(), v(&["192.0.2.64/26", "RS-X"]));
+    // members with range operators, as real route-sets have them
+    _ = m.db.route_sets.insert("RS-R".into(), v(&["192.0.2.0/24^25-26", "198.51.100.0/24^+", "2001:db8::/32^-", "2001:db8:f00::/48^50", "198.51.100.0/25"]));
     let f = Ex::And(Box::new(Ex::AsSet("AS-A".into())), Box::new(Ex::Ranged(Box::new(Ex::Lit(vec![("192.0.2.0/24".into(), Op::None)])), Op::Plus)));
     let g = Ex::Lit(vec![("198.51.100.0/24".into(), Op::Range(25, 26))]);
     // FLTR-F has two objects; the first one with an mp-filter wins
@@ -318,6 +343,7 @@ pub fn atoms() -> Vec<Ex> {
         Ex::AutNum("AS65002".into()),
         Ex::AutNum("AS65004".into()),
         Ex::RouteSet("RS-X".into()),
+        Ex::RouteSet("RS-R".into()),
         Ex::FilterSet("FLTR-F".into()),
         lit4.clone(),
         lit6,
